@@ -249,3 +249,57 @@ def bounded_segment_is_valid(seed, tier):
             'bound': '%d segment nodes of %d shipped maps x %d seeded synthetic segments each (seed %d)' % (n_nodes, len(files), per_node, seed),
             'failures': failures}
 
+
+
+def bounded_element_is_valid(seed, tier):
+    """the contract of element_if.is_valid evaluated natively: every element definition of two shipped maps (distinct by usage / type /
+    lengths / code list / position) x a pool of candidate values (empty, absent, composite, lengths around min/max, signs and points,
+    dates and times, trailing blanks, listed and unlisted codes) x qualifier lists: the reported codes are exactly the ones the
+    definition implies (values with a control character are left to the listed known finding K4: only result == no error is checked)"""
+    import random
+    import pyx12.segment
+    rnd = random.Random(seed)
+    nodes, seen = [], set()
+    for nd in _all_element_nodes():
+        de = nd.root.data_elements.get_by_elem_num(nd.data_ele)
+        key = (nd.usage, de['data_type'], de['min_len'], de['max_len'], bool(nd.valid_codes), nd.external_codes is not None,
+               nd.seq == 1, nd.parent.is_composite(), getattr(nd.parent, 'usage', None), nd.rec is not None)
+        if key not in seen:
+            seen.add(key)
+            nodes.append(nd)
+    if tier == 'quick':
+        rnd.shuffle(nodes)
+        nodes = nodes[:120]
+    fails, n = [], 0
+    base = ['', 'A', 'AB', ' ', 'A ', 'AB  ', '1', '12', '-1', '1.5', '-', '.', '1-', '00', '20030101', '20031301', '030101', '2003010',
+            '1200', '2500', '120000', '12000', '20030101-20030102', '20030101-2003', 'x', 'é', 'A\x07', '\n', 'ZZ', '~', '|']
+    for nd in nodes:
+        de = nd.root.data_elements.get_by_elem_num(nd.data_ele)
+        pool = list(base) + ['9' * k for k in {max(de['min_len'] - 1, 0), de['min_len'], de['max_len'], de['max_len'] + 1}] + \
+            ['A' * k for k in {max(de['min_len'] - 1, 0), de['min_len'], de['max_len'], de['max_len'] + 1}] + list(nd.valid_codes[:3])
+        for v in [None, 'COMPOSITE'] + pool:
+            for tl in ([], ['D8'], ['TM'], ['RD8', 'D8']):
+                if tl and rnd.random() < 0.7:
+                    continue
+                elem = None if v is None else (pyx12.segment.Composite('a:b', ':') if v == 'COMPOSITE' else pyx12.segment.Element(v))
+                errh = NativeErrH()
+                n += 1
+                try:
+                    res = nd.is_valid(elem, errh, list(tl))
+                except Exception as e:
+                    if len(fails) < 8:
+                        fails.append({'input': {'node': nd.refdes, 'value': v, 'type_list': tl}, 'detail': 'raised %s: %s' % (type(e).__name__, str(e)[:80])})
+                    continue
+                inp = {'node': nd.refdes, 'map': nd.root.id if hasattr(nd.root, 'id') else '', 'value': v, 'type_list': tl}
+                if res != (len(errh.log) == 0) and len(fails) < 8:
+                    fails.append({'input': inp, 'detail': 'result %r but %d errors reported' % (res, len(errh.log))})
+                if isinstance(v, str) and v != 'COMPOSITE' and has_control_char(v):
+                    continue
+                got, want = reported(errh.log), expected_codes(nd, elem, list(tl))
+                if tuple(got) != tuple(want) and len(fails) < 8:
+                    names = ('1', '10', '4', '5', '6', '7', '8', '9')
+                    fails.append({'input': inp, 'detail': 'reported codes %r, the definition implies %r' % (
+                        [c for c, b in zip(names, got) if b], [c for c, b in zip(names, want) if b])})
+    return {'function': 'pyx12.map_if.element_if.is_valid', 'evaluations': n,
+            'bound': '%d element definitions (distinct by usage/type/lengths/codes/position) of 837.4010 and 834.5010 x value pool x qualifier lists' % len(nodes),
+            'failures': fails}
